@@ -215,6 +215,12 @@ def r_view_symmetry(ctx):
         busy_t = ("idx", A(r, "_busy_intervals"), t)
         lo_t, hi_t = mv(idx(busy_t, 0)), mv(idx(busy_t, 1))
         # the membership tests only de-duplicate; the assignment predicate is what remains
+        def dedupe(c):
+            """a membership test against the very list being filled (seen-before filter), whatever it is called"""
+            while is_app(c, "not") and len(c) == 3:
+                c = c[2]
+            return is_app(c, "in") and len(c) == 4 and ((isinstance(c[3], tuple) and c[3] and c[3][0] == "carried")
+                                                       or "assignments" in show(c[3]) or "assigned_resources" in show(c[3]))
         pred_t = [g for g in items[0].guards if "assigned_resources" not in show(g)]
         # resource view
         # what goes into ResourceSolution.assignments: append calls on a not fully resolved receiver, or items of the list of
@@ -253,7 +259,7 @@ def r_view_symmetry(ctx):
             for g_ in gs:
                 g2 = substitute(g_, m)
                 for c in (g2[2:] if is_app(g2) and g2[1] in ("and", "and*") else [g2]):
-                    if "assignments" in show(c) or "assigned_resources" in show(c):
+                    if "assignments" in show(c) or "assigned_resources" in show(c) or dedupe(c):
                         continue
                     out.append(c)
             def pyb(x):
